@@ -2,6 +2,7 @@ SPECIFICATION Spec
 CONSTANTS
   Flushers = {F1, F2, F3}
   Writer = W
+  SharedResult = TRUE
   WatchDone = FALSE
 INVARIANTS TypeOK CtxOnlyIfExpired
 PROPERTIES LoopComesBack
